@@ -25,6 +25,7 @@ type smsObs struct {
 	EncPanic   string
 	Again      []byte // octets written by a second Marshal of the same packet
 	AgainOK    bool
+	TermAfter  string // observables of the packet AFTER the first Marshal (Marshal writes into SubmitFlags)
 	AgainPanic string
 	ValidType  bool   // packet is a pointer to one of the eight structs
 	Term       string // Gallina observables of the decoded struct, taken BEFORE Marshal (which writes into SubmitFlags)
@@ -64,6 +65,9 @@ func smsRunReader(rd io.Reader) (o smsObs) {
 		o.EncClass, o.EncErr = 1, merr.Error()
 	default:
 		o.Out = append([]byte{}, buf.Bytes()...)
+		if o.ValidType {
+			o.TermAfter = smsObsTerm(p) // the structure after Marshal has written into it
+		}
 		var again bytes.Buffer
 		p2, m2 := guard(func() { _, merr = sms.Marshal(&again, p) })
 		o.Again = append([]byte{}, again.Bytes()...)
